@@ -253,3 +253,33 @@ fn fits_body<'a>(defs: &[DefD], utf8: usize, pool: Option<&'a [Val]>, mut binds:
 	}
 	true
 }
+
+// ---------------------------------------------------------------- regions of the known JVMS defects (`RawLayout.avoidsV` / `knownBad`)
+
+/// `RawLayout.knownBad`: long/double pool entries, the NestMembers and MethodParameters attributes
+pub fn known_bad(cp_id: usize, id: usize, v: &VariantD) -> bool {
+	(id == cp_id && matches!(v.tag.e, E::Lit(5) | E::Lit(6))) || v.guard == Some(b"NestMembers") || v.guard == Some(b"MethodParameters")
+}
+
+/// `RawLayout.avoidsV`: no node of the value is a variant for which `bad` holds
+pub fn avoids(defs: &[DefD], bad: &dyn Fn(usize, &VariantD) -> bool, ty: &Ty, v: &Val) -> bool {
+	match (ty, v) {
+		(Ty::VecCnt(_, el), Val::List(vs)) | (Ty::VecLen(_, el), Val::List(vs)) => vs.iter().all(|x| avoids(defs, bad, el, x)),
+		(Ty::Ref(id), Val::Node(k, fs)) => match defs.get(*id) {
+			Some(DefD::Struct { body, .. }) => avoids_fields(defs, bad, body, fs),
+			Some(DefD::Enum { variants, .. }) => match variants.get(*k) {
+				Some(var) => !bad(*id, var) && avoids_fields(defs, bad, &var.body, fs),
+				None => true,
+			},
+			None => true,
+		},
+		_ => true,
+	}
+}
+
+fn avoids_fields(defs: &[DefD], bad: &dyn Fn(usize, &VariantD) -> bool, body: &BodyD, fs: &[Val]) -> bool {
+	body.fields.iter().zip(fs.iter()).all(|(f, v)| match &f.kind {
+		FieldKind::Field(ty, _) => avoids(defs, bad, ty, v),
+		FieldKind::NoWrite(..) => true,
+	})
+}
